@@ -232,6 +232,8 @@ class Normalizer:
                 break
         self._drop_unreferenced()
         for f in list(repo.funcs.values()):
+            self._replace_node(f, self.guard_form(f))
+        for f in list(repo.funcs.values()):
             self._replace_node(f, self.split_ifexp(f))
         for f in list(repo.funcs.values()):
             self._replace_node(f, self.unflag_loops(f))
@@ -378,6 +380,48 @@ class Normalizer:
 
         new = copy.deepcopy(f.node)
         T().visit(new)
+
+        return new if hit[0] else None
+
+    def guard_form(self, f: Func) -> t.Optional[FuncNode]:
+        hit = [False]
+        new = copy.deepcopy(f.node)
+        # N16  guard-clause form:  if c: A else: B   with A ending in raise/return/continue/break  ->  if c: A ; B
+        #      (and with only B terminating:  if not c: B ; A).  Applied innermost first, so single-exit nests unfold.
+        def negate(e: ast.expr) -> ast.expr:
+            if isinstance(e, ast.UnaryOp) and isinstance(e.op, ast.Not):
+                return e.operand
+            return ast.copy_location(ast.UnaryOp(op=ast.Not(), operand=e), e)
+
+        def flatten(block: t.List[ast.stmt]) -> t.List[ast.stmt]:
+            out: t.List[ast.stmt] = []
+            for st in block:
+                for fld in ("body", "orelse", "finalbody"):
+                    sub = getattr(st, fld, None)
+                    if isinstance(sub, list) and sub and isinstance(sub[0], ast.stmt) and not isinstance(st, (ast.FunctionDef, ast.AsyncFunctionDef, ast.ClassDef)):
+                        setattr(st, fld, flatten(sub))
+                if isinstance(st, ast.Try):
+                    for h in st.handlers:
+                        h.body = flatten(h.body)
+                if isinstance(st, ast.If) and st.orelse and not (len(st.orelse) == 1 and isinstance(st.orelse[0], ast.If) and not _terminates(st.body)):
+                    size = lambda b: sum(1 for x_ in b for _ in ast.walk(x_))  # noqa: E731
+                    if _terminates(st.body) and not (_terminates(st.orelse) and size(st.orelse) < size(st.body)):
+                        rest, st.orelse = st.orelse, []
+                        out.append(st)
+                        out.extend(rest)
+                        hit[0] = True
+                        continue
+                    if _terminates(st.orelse):
+                        rest = st.body
+                        st.test, st.body, st.orelse = negate(st.test), st.orelse, []
+                        out.append(st)
+                        out.extend(rest)
+                        hit[0] = True
+                        continue
+                out.append(st)
+            return out
+
+        new.body = flatten(new.body)
         return new if hit[0] else None
 
     def fold_new_constants(self, f: Func) -> t.Optional[FuncNode]:
